@@ -6,11 +6,12 @@ prefix / extension relations are frequent; address widths grow by 5 bits per lev
 size is 1, so a name conflict is the only possible reason for a refusal (the model confirms
 this: any other predicted refusal reason is counted as a generator artefact, never judged).
 """
+import enum
 import random
 
 from vmon import env  # noqa: F401
 from vmon.suitemon import suite_case
-from vmon.simkit import Mon
+from vmon.simkit import Mon, spell_int
 from vmon.models.memmap import MapModel, REFUSE, ACCEPT, live_resources, live_windows, live_all, valid_name
 
 from amaranth.lib import wiring
@@ -21,7 +22,7 @@ RULE = ("cases = random histories (15-70 calls) of add_resource/add_window on a 
         "drawn from parts {'a','b','ab','0',0,1}, length 1-3, plain strings included, named and anonymous windows; "
         "distinct = distinct history; non-trivial = history containing at least one refusal for a prefix/extension "
         "(not merely equal) conflict and one accepted name that shares a first part with an existing name")
-ASSUMPTIONS = ["set-of-tuples namespace model: conflict iff equal, prefix or extension, parts compared with type"]
+ASSUMPTIONS = ["set-of-tuples namespace model: conflict iff equal, prefix or extension, parts compared with Python equality (0 != '0'; an IntEnum member, bool or int subclass equals the int, a str-mixin Enum member equals its value)"]
 REQUIRED = ["name_refused", "name_accepted", "atomic", "paths_distinct", "paths_match_model"]
 
 PARTS = ["a", "b", "ab", "0", 0, 1]
@@ -42,10 +43,33 @@ def gen_case(rng, tier, idx):
     return {"steps": rng.randint(15, 70), "maps_per_level": [rng.randint(2, 5), rng.randint(1, 3), 1]}
 
 
+class StrPart(str, enum.Enum):
+    """The common `class RegName(str, Enum)` idiom: members are strings equal to their value."""
+    A = "a"
+    B = "b"
+    AB = "ab"
+    ZERO = "0"
+
+
+class StrSub(str):
+    pass
+
+
+def respell(rng, part):
+    """The same part as another object that equals it: bool / IntEnum member / int subclass for ints, a str-mixin
+    Enum member or a str subclass for strings."""
+    if isinstance(part, int):
+        return spell_int(rng, part, p=1.0)
+    return rng.choice([StrPart(part), StrSub(part)]) if part in ("a", "b", "ab", "0") else StrSub(part)
+
+
 def gen_name(rng):
     n = rng.choice([1, 1, 1, 2, 2, 3, 3, 4, 6])
     parts = PARTS if rng.random() < 0.9 else PARTS + [255, 256, 257, 2 ** 64, "a" * 40, "A", "á"]
     name = tuple(rng.choice(parts) for _ in range(n))
+    if rng.random() < 0.08:
+        k = rng.randrange(n)
+        name = name[:k] + (respell(rng, name[k]),) + name[k + 1:]
     if n == 1 and isinstance(name[0], str) and rng.random() < 0.4:
         return name[0]          # plain string form
     return name
